@@ -5,6 +5,7 @@ import (
 	"fmt"
 	"math/rand"
 	"sync"
+	"sync/atomic"
 	"time"
 
 	"verif/cqlclient"
@@ -72,9 +73,10 @@ func init() {
 		nclients := fs.Int("clients", 5, "clients per round")
 		steps := fs.Int("steps", 14, "operations per client")
 		nodes := fs.Int("nodes", 2, "backend nodes")
+		gated := fs.Int("gated", 0, "extra round: this many USEs of non-existent keyspaces with ConnectSession held back until every pool has failed")
 		_ = fs.Parse(args)
 		type stT struct {
-			Rounds, Clients, Uses, Data, Events int
+			Rounds, Clients, Uses, Data, Events, Gated int
 		}
 		st := &stT{}
 		combos := []struct {
@@ -154,6 +156,62 @@ func init() {
 				return err
 			}
 			first = false
+			e.Close()
+		}
+		if *gated > 0 {
+			// Schedule from Session.tla (UseConnect with every pool failing): the goroutine creating the session is
+			// descheduled between registering with the cluster and waiting for the outcome, until every pool has
+			// reported its failure and the bootstrap goroutine has announced completion. Both outcomes are then
+			// ready at once; the USE must still fail.
+			t := tracer.New()
+			e, err := env.Start(env.Options{Nodes: *nodes, NumConns: 1, Hooks: true, Tracer: t, Keyspaces: sessionKeyspaces})
+			if err != nil {
+				return err
+			}
+			c, err := e.StartedClient(primitive.ProtocolVersion4, "")
+			if err != nil {
+				e.Close()
+				return err
+			}
+			t.Emit("Hello", "c", c.ID, "ver", 4, "comp", "")
+			sc := &sessClient{c: c, ver: 4, rnd: newRand(77)}
+			t.Emit("ScenarioStart")
+			for i := 0; i < *gated; i++ {
+				var stored int32
+				counter := e.Sink.AddGate("pool.store", func(args []interface{}) bool {
+					atomic.AddInt32(&stored, 1)
+					return false
+				})
+				g := e.Sink.AddGate("session.listening", nil)
+				done := make(chan struct{})
+				go func() {
+					sc.use(t, fmt.Sprintf("nosuchks%d", i), map[string]bool{})
+					close(done)
+				}()
+				if g.Arrived(3 * time.Second) {
+					deadline := time.Now().Add(3 * time.Second)
+					for time.Now().Before(deadline) && int(atomic.LoadInt32(&stored)) < *nodes {
+						time.Sleep(2 * time.Millisecond)
+					}
+					time.Sleep(30 * time.Millisecond) // the bootstrap goroutine closes `connected` right after the last pool
+					st.Gated++
+				}
+				g.Release()
+				counter.Release()
+				<-done
+				st.Uses++
+			}
+			e.Sink.ReleaseAll()
+			t.Quiesce(300*time.Millisecond, 3*time.Second)
+			t.Emit("Quiet")
+			t.Stop()
+			evs := t.Events()
+			st.Events += len(evs)
+			st.Rounds++
+			if err := tracer.WriteNDJSON(*out, evs, !first); err != nil {
+				e.Close()
+				return err
+			}
 			e.Close()
 		}
 		return writeJSON(*stats, st)
